@@ -87,4 +87,46 @@ def run {G : Type} (isWord : G → Bool) (s : Ed G) : List (Op G) → Ed G
   | [] => s
   | op :: ops => run isWord (apply isWord s op) ops
 
+/-! ### Texts whose graphemes can merge (combining marks, joiners, flags, Hangul jamo)
+
+A text is a list of atoms `A` (code points); `cl : List A → List (List A)` is the segmentation into
+grapheme clusters (UAX #29 in the widgets; a parameter here).  The ideal editor still works on
+graphemes: its state is `Ed (List A)` — the text as its list of clusters, the cursor a grapheme
+index — and a step is the step of the grapheme editor above followed by *re-segmentation*: the text
+is the same atoms, segmented anew (an inserted mark joins the grapheme before it, a deletion can
+bring two parts of a grapheme together), and the cursor stays behind the atoms it was behind
+(`cl` of the atoms before it), within the text.  Typing or pasting the string `s` is
+`.insert (cl s)`.  With a segmentation that never merges (`cl = map singleton`) re-segmentation is
+the identity and this is the editor above. -/
+
+/-- Re-segment an editor state. -/
+def resegment {A : Type} (cl : List A → List (List A)) (s : Ed (List A)) : Ed (List A) :=
+  let t := cl s.text.flatten
+  ⟨t, min (cl (s.text.take s.cursor).flatten).length t.length⟩
+
+/-- One step of the ideal editor over a text whose graphemes are given by `cl`. -/
+def applyC {A : Type} (cl : List A → List (List A)) (isWord : List A → Bool) (s : Ed (List A))
+    (op : Op (List A)) : Ed (List A) :=
+  resegment cl (apply isWord s op)
+
+/-- Callbacks of a step: `submit` on Enter (with the line), `change` iff the text changed. -/
+def callbacksC {A : Type} [DecidableEq A] (cl : List A → List (List A)) (isWord : List A → Bool)
+    (s : Ed (List A)) (op : Op (List A)) : List (Callback (List A)) :=
+  match op with
+  | .submit => [.submit s.text]
+  | _ => if (applyC cl isWord s op).text = s.text then [] else [.change (applyC cl isWord s op).text]
+
+def runC {A : Type} (cl : List A → List (List A)) (isWord : List A → Bool) (s : Ed (List A)) :
+    List (Op (List A)) → Ed (List A)
+  | [] => s
+  | op :: ops => runC cl isWord (applyC cl isWord s op) ops
+
+/-- What is asked of a segmentation (all three hold of UAX #29, where a boundary depends only on the
+text before it and the next code point): the clusters concatenate to the text; re-segmenting the
+first `i` clusters gives `i` clusters; appending text never lowers the number of clusters. -/
+structure Segmentation {A : Type} (cl : List A → List (List A)) : Prop where
+  flatten : ∀ x, (cl x).flatten = x
+  prefixLen : ∀ x i, i ≤ (cl x).length → (cl ((cl x).take i).flatten).length = i
+  mono : ∀ x y, (cl x).length ≤ (cl (x ++ y)).length
+
 end VaxisModel.Spec.Editor
